@@ -10,13 +10,33 @@ import json
 import os
 
 from .. import core, pystmt
-from ..extract import HEADER, Src
+from ..extract import HEADER, Src, lean_str
 from ..pyexpr import Untranslatable
 
 PINNED = {}
 
 
 MUTABLE = {"self.columns": "cols_"}
+
+
+# what a `str` can be asked besides being compared: the translation passes these on as *parameters* (`S : StrOps ν`)
+STR_PREDS = {"isdigit", "isdecimal", "isnumeric", "isalpha", "isalnum", "isascii", "isidentifier", "islower", "isupper", "isspace",
+             "istitle", "isprintable", "startswith", "endswith"}
+STR_FNS = {"strip", "lstrip", "rstrip", "upper", "lower", "casefold", "title", "capitalize", "swapcase", "removeprefix", "removesuffix",
+           "zfill", "replace", "ljust", "rjust", "center", "expandtabs"}
+
+
+def _str_method(n):
+    """`x.isdecimal()`, `x.startswith('_')`, `x.strip()` …: (kind, label) with constant arguments inside the label"""
+    if not (isinstance(n, ast.Call) and isinstance(n.func, ast.Attribute) and not n.keywords):
+        return None
+    a = n.func.attr
+    if a not in STR_PREDS and a not in STR_FNS:
+        return None
+    if not all(isinstance(x, ast.Constant) and isinstance(x.value, (str, int)) and not isinstance(x.value, bool) for x in n.args):
+        return None
+    label = a if not n.args else "%s(%s)" % (a, ", ".join(repr(x.value) for x in n.args))
+    return ("pred" if a in STR_PREDS else "fn"), label
 
 
 def _is_find_call(n):
@@ -26,6 +46,23 @@ def _is_find_call(n):
 def _hook_factory(state):
     """`state`: a dict the statement hooks write to (`key_kind`: what the argument of `column(i)` is known to be)."""
     def hook(n, go):
+        if state.get("strops"):
+            # a string literal / a question asked of a string: parameters of the translation (`StrOps`)
+            if isinstance(n, ast.Constant) and isinstance(n.value, str):
+                return "(S.lit %s)" % lean_str(n.value)
+            sm = _str_method(n)
+            if sm is not None and not (sm[1] == "lower" and state.get("has_lower")):
+                return "(S.%s %s %s)" % (sm[0], lean_str(sm[1]), go(n.func.value))
+            # int(x): in a branch where x is known to be an int it is x; on a name it is `S.toInt` (hoisted by the
+            # statement hook, which also renders the ValueError); anywhere else it is not translated
+            if isinstance(n, ast.Call) and isinstance(n.func, ast.Name) and n.func.id == "int" and len(n.args) == 1 and not n.keywords \
+                    and isinstance(n.args[0], ast.Name):
+                x = n.args[0].id
+                if state.get("key_kind", {}).get(x) == "int":
+                    return go(n.args[0])
+                if x in state.get("int_of", {}):
+                    return state["int_of"][x]
+                raise Untranslatable("int(%s) outside a statement the translator can guard" % x)
         # column.all_names  ->  the generated all_names applied to the column
         if isinstance(n, ast.Attribute) and n.attr == "all_names":
             return "(all_names %s)" % go(n.value)
@@ -43,7 +80,7 @@ def _hook_factory(state):
             a = n.args[0]
             if isinstance(a, ast.Name) and state.get("key_kind", {}).get(a.id) == "int":
                 return "none"  # an int is never among the names: `5 in column.all_names` is False for every column
-            return "(find_column %s self_ %s %s)" % (low, go(a), ci)
+            return "(find_column S %s self_ %s %s)" % (low, go(a), ci)
         # properties / methods of the schema that are generated too
         if isinstance(n, ast.Attribute) and ast.unparse(n) in ("self.column_names", "self.num_columns"):
             return "(%s self_)" % n.attr
@@ -66,11 +103,11 @@ def _hook_factory(state):
     return hook
 
 
-def _ex(extra_env=None, records=(), listy=(), has_lower=False):
+def _ex(extra_env=None, records=(), listy=(), has_lower=False, strops=False):
     env = {"self.columns": "self_.columns", "self.name": "self_.name", "self.aliases": "self_.aliases",
            "other.columns": "other.columns", "other.name": "other.name", "other.aliases": "other.aliases", "self": "self_"}
     env.update(extra_env or {})
-    state = {"has_lower": has_lower}
+    state = {"has_lower": has_lower, "strops": strops}
     ex = pystmt.Expr(env=env, records=set(records) | {"column", "col", "c"}, methods={"lower": "lower"},
                      hook=_hook_factory(state), listy=set(listy) | {"self.columns", "other.columns", "self.aliases", "other.aliases"},
                      optlist_attrs={"aliases"}, opt_hook=_is_find_call)
@@ -112,9 +149,9 @@ def t_find_column(sch):
     args = [a.arg for a in fn.args.args]
     if args != ["self", "column_name", "case_insensitive"]:
         raise Untranslatable("find_column%r" % (args,))
-    ex = _ex()
+    ex = _ex(has_lower=True, strops=True)
     return pystmt.function(fn, "find_column",
-                           [(None, "(lower : ν → ν)"), (None, "(self_ : Schema ι ν)"), ("column_name", "(column_name : ν)"),
+                           [(None, "(S : StrOps ν)"), (None, "(lower : ν → ν)"), (None, "(self_ : Schema ι ν)"), ("column_name", "(column_name : ν)"),
                             ("case_insensitive", "(case_insensitive : Bool)")],
                            "Option (Col ι ν)", ex, ret=_opt_ret, k="none", fold_redex=True)
 
@@ -123,7 +160,7 @@ def t_pop_column(sch):
     fn = sch.func("pop_column", "RelationSchema")
     if [a.arg for a in fn.args.args] != ["self", "column_name"]:
         raise Untranslatable("pop_column signature")
-    ex = _ex()
+    ex = _ex(strops=True)
 
     def ret(v, ex):
         cols = ex.env["self.columns"]
@@ -134,7 +171,7 @@ def t_pop_column(sch):
             i = ex.go(v.args[0])
             return "((%s)[%s]?, (%s).eraseIdx %s)" % (cols, i, cols, i)
         return "(%s, %s)" % (_opt_ret(v, ex), cols)
-    return pystmt.function(fn, "pop_column", [(None, "(self_ : Schema ι ν)"), ("column_name", "(column_name : ν)")],
+    return pystmt.function(fn, "pop_column", [(None, "(S : StrOps ν)"), (None, "(self_ : Schema ι ν)"), ("column_name", "(column_name : ν)")],
                            "Option (Col ι ν) × List (Col ι ν)", ex, ret=ret, k=lambda ex: "(none, %s)" % ex.env["self.columns"],
                            mutable=MUTABLE, fold_redex=True)
 
@@ -164,67 +201,203 @@ def t_iter(sch):
 
 
 def t_column(sch):
-    """`column(i)`: the run-time type test on the argument becomes a `match` on `Key` (`int` / `bool` / `str`)."""
+    """`column(i)`: the run-time type test on the argument becomes a `match` on `Key` (`int` / `bool` / `str`).
+
+    Inside an arm the constructor is known, so every further type test on the argument is *decided* (with Python's
+    short-circuit rules), whatever else the test asks of the name (`i.isdecimal()`, `i.startswith('#')` …) goes to the
+    `StrOps` parameter, and `int(i)` on a name is `S.toInt i`, evaluated where Python evaluates it, `ValueError` being a
+    value (`.error "ValueError"`): the function returns `Except String (Out ι ν)`."""
     fn = sch.func("column", "RelationSchema")
     args = [a.arg for a in fn.args.args]
     if len(args) != 2 or args[0] != "self":
         raise Untranslatable("column%r" % (args,))
     arg = args[1]
-    ex = _ex()
+    for n in ast.walk(fn):
+        if isinstance(n, ast.Name) and n.id == arg and not isinstance(n.ctx, ast.Load):
+            raise Untranslatable("%s is assigned to" % arg)
+    ex = _ex(strops=True)
     state = ex.c17
-    state["key_kind"] = {}
+    state["key_kind"] = {}   # python name -> "int" / "str": what it is known to be in the arm being translated
+    state["key_ctor"] = {}   # the argument -> constructor of `Key` of the arm being translated
+    state["int_of"] = {}     # python name x -> Lean name of the value of int(x), where it has been evaluated
 
     def type_test(t):
-        """(positive?, class name) for isinstance(i, C) / type(i) is C / not …"""
-        if isinstance(t, ast.UnaryOp) and isinstance(t.op, ast.Not):
-            r = type_test(t.operand)
-            return None if r is None else (not r[0], r[1], r[2])
-        if isinstance(t, ast.Call) and isinstance(t.func, ast.Name) and t.func.id == "isinstance" and len(t.args) == 2 \
-                and isinstance(t.args[0], ast.Name) and t.args[0].id == arg and isinstance(t.args[1], ast.Name):
-            return (True, t.args[1].id, "isinstance")
-        if isinstance(t, ast.Compare) and len(t.ops) == 1 and isinstance(t.ops[0], (ast.Is, ast.Eq, ast.IsNot, ast.NotEq)) \
-                and ast.unparse(t.left) == "type(%s)" % arg and isinstance(t.comparators[0], ast.Name):
-            return (isinstance(t.ops[0], (ast.Is, ast.Eq)), t.comparators[0].id, "type")
+        """(class names, how) for isinstance(i, C) / isinstance(i, (C, D)) / type(i) is C / type(i) in (C, D); else None"""
+        if isinstance(t, ast.Call) and isinstance(t.func, ast.Name) and t.func.id == "isinstance" and len(t.args) == 2 and not t.keywords \
+                and isinstance(t.args[0], ast.Name) and t.args[0].id == arg:
+            c = t.args[1]
+            if isinstance(c, ast.Name):
+                return (True, [c.id], "isinstance")
+            if isinstance(c, ast.Tuple) and c.elts and all(isinstance(e, ast.Name) for e in c.elts):
+                return (True, [e.id for e in c.elts], "isinstance")
+            raise Untranslatable("type test %s" % ast.unparse(t))
+        if isinstance(t, ast.Compare) and len(t.ops) == 1 and ast.unparse(t.left) == "type(%s)" % arg:
+            op, c = t.ops[0], t.comparators[0]
+            if isinstance(op, (ast.Is, ast.Eq, ast.IsNot, ast.NotEq)) and isinstance(c, ast.Name):
+                return (isinstance(op, (ast.Is, ast.Eq)), [c.id], "type")
+            if isinstance(op, (ast.In, ast.NotIn)) and isinstance(c, (ast.Tuple, ast.List, ast.Set)) and c.elts \
+                    and all(isinstance(e, ast.Name) for e in c.elts):
+                return (isinstance(op, ast.In), [e.id for e in c.elts], "type")
+            raise Untranslatable("type test %s" % ast.unparse(t))
         return None
+
+    def has_type_test(t):
+        for n in ast.walk(t):
+            try:
+                if type_test(n) is not None:
+                    return True
+            except Untranslatable:
+                return True
+        return False
 
     # which constructors of Key pass the test: isinstance(True, int) holds, type(True) is int does not
     PASS = {("isinstance", "int"): {"idx", "flag"}, ("isinstance", "bool"): {"flag"}, ("isinstance", "str"): {"name"},
             ("type", "int"): {"idx"}, ("type", "bool"): {"flag"}, ("type", "str"): {"name"}}
 
-    def stmt_hook(s, rest, k, depth, st):
-        if not isinstance(s, ast.If) or arg in state["key_kind"]:
-            return None
-        tt = type_test(s.test)
+    def const(v):
+        return ast.copy_location(ast.Constant(value=v), ast.parse("0").body[0])
+
+    def simplify(t):
+        """decide the type tests of the current arm; fold and / or / not the way Python short-circuits (what stands
+        before a decided operand is still evaluated: it may raise)"""
+        if isinstance(t, ast.UnaryOp) and isinstance(t.op, ast.Not):
+            x = simplify(t.operand)
+            if isinstance(x, ast.Constant) and isinstance(x.value, bool):
+                return const(not x.value)
+            return ast.UnaryOp(op=ast.Not(), operand=x)
+        if isinstance(t, ast.BoolOp):
+            absorbing = isinstance(t.op, ast.Or)   # `or` stops at the first true operand, `and` at the first false one
+            vals = []
+            for v in t.values:
+                x = simplify(v)
+                if isinstance(x, ast.Constant) and isinstance(x.value, bool):
+                    if x.value is absorbing:
+                        vals.append(x)
+                        break
+                    continue
+                vals.append(x)
+            if not vals:
+                return const(not absorbing)
+            return vals[0] if len(vals) == 1 else ast.BoolOp(op=t.op, values=vals)
+        tt = type_test(t)
         if tt is None:
-            return None
-        pos, cls, how = tt
-        if (how, cls) not in PASS:
-            raise Untranslatable("type test against %s" % cls)
-        passing = PASS[(how, cls)]
+            # the argument itself as a condition: a number is true unless it is 0, a string unless it is empty
+            if isinstance(t, ast.Name) and t.id == arg and arg in state["key_kind"]:
+                zero = ast.Constant(value=0) if state["key_kind"][arg] == "int" else ast.Constant(value="")
+                return ast.Compare(left=t, ops=[ast.NotEq()], comparators=[zero])
+            return t
+        pos, classes, how = tt
+        passing = set()
+        for cls in classes:
+            if (how, cls) not in PASS:
+                raise Untranslatable("type test against %s" % cls)
+            passing |= PASS[(how, cls)]
+        return const((state["key_ctor"][arg] in passing) == pos)
+
+    def int_calls(e):
+        """the `int(x)` calls on a *name* in expression e that Python evaluates whenever it evaluates e (not under and /
+        or / a conditional expression / a comprehension / a lambda); any other one is refused"""
+        plain, guarded = [], []
+
+        def walk(n, under):
+            if isinstance(n, ast.Call) and isinstance(n.func, ast.Name) and n.func.id == "int" and len(n.args) == 1 and not n.keywords \
+                    and isinstance(n.args[0], ast.Name) and state["key_kind"].get(n.args[0].id) == "str" \
+                    and n.args[0].id not in state["int_of"]:
+                (guarded if under else plain).append(n.args[0].id)
+                return
+            if isinstance(n, ast.Call) and isinstance(n.func, ast.Name) and n.func.id == "int":
+                a0 = n.args[0] if len(n.args) == 1 and not n.keywords else None
+                if not (isinstance(a0, ast.Name) and (state["key_kind"].get(a0.id) == "int" or a0.id in state["int_of"])):
+                    raise Untranslatable("int(...) of something that is not a plain name")
+            for f, v in ast.iter_fields(n):
+                for c in (v if isinstance(v, list) else [v]):
+                    if isinstance(c, ast.AST):
+                        walk(c, under or isinstance(n, (ast.BoolOp, ast.IfExp, ast.ListComp, ast.SetComp, ast.DictComp, ast.GeneratorExp, ast.Lambda)))
+
+        walk(e, False)
+        if guarded:
+            raise Untranslatable("int(%s) under and / or / a conditional expression" % guarded[0])
+        return list(dict.fromkeys(plain))
+
+    def with_ints(names, depth, st, inner):
+        """`match S.toInt x with | none => ValueError | some x_int => …` around what `inner(depth)` renders"""
+        if not names:
+            return inner(depth)
+        x, more = names[0], names[1:]
         pad = st.ind * depth
-        arms = []
-        for ctor, binder, kind, pre in (("idx", arg, "int", ""), ("flag", arg + "_flag", "int", "let %s := boolIndex %s_flag\n" % (arg, arg)),
-                                        ("name", arg, "str", "")):
-            taken = (ctor in passing) == pos
-            state["key_kind"][arg] = kind
-            try:
-                body = st.block(list(s.body if taken else s.orelse) + rest, k, depth + 1)
-            finally:
-                state["key_kind"].pop(arg, None)
-            if pre:
-                body = pre + pad + st.ind + body
-            arms.append("%s| .%s %s =>\n%s%s%s" % (pad, ctor, binder, pad, st.ind, body))
-        return "match %s with\n%s" % (arg, "\n".join(arms))
+        saved = ex.typestate()
+        ex.bound.add(x + "_int")
+        state["int_of"][x] = x + "_int"
+        state["key_kind"][x + "_int"] = "int"
+        try:
+            body = with_ints(more, depth + 1, st, inner)
+        finally:
+            state["int_of"].pop(x, None)
+            state["key_kind"].pop(x + "_int", None)
+            ex.restore(saved)
+        return "match S.toInt %s with\n%s| none => .error \"ValueError\"\n%s| some %s_int =>\n%s%s%s" % (
+            ex.go(ast.Name(id=x, ctx=ast.Load())), pad, pad, x, pad, st.ind, body)
+
+    def stmt_hook(s, rest, k, depth, st):
+        pad = st.ind * depth
+        if isinstance(s, ast.If) and arg not in state["key_ctor"]:
+            if not has_type_test(s.test):
+                return None
+            # the first statement that asks what the argument is: one arm per constructor, this statement and
+            # everything after it translated again inside each arm, where the answer is known
+            arms = []
+            for ctor, binder, kind, pre in (("idx", arg, "int", ""), ("flag", arg + "_flag", "int", "let %s := boolIndex %s_flag\n" % (arg, arg)),
+                                            ("name", arg, "str", "")):
+                state["key_kind"][arg] = kind
+                state["key_ctor"][arg] = ctor
+                try:
+                    body = st.block([s] + rest, k, depth + 1)
+                finally:
+                    state["key_kind"].pop(arg, None)
+                    state["key_ctor"].pop(arg, None)
+                if pre:
+                    body = pre + pad + st.ind + body
+                arms.append("%s| .%s %s =>\n%s%s%s" % (pad, ctor, binder, pad, st.ind, body))
+            return "match %s with\n%s" % (arg, "\n".join(arms))
+        if arg not in state["key_ctor"]:
+            return None
+        if isinstance(s, ast.If) and not getattr(s, "_c17_done", False):
+            t = simplify(s.test)
+            if isinstance(t, ast.Constant) and isinstance(t.value, bool):
+                return st.block(list(s.body if t.value else s.orelse) + rest, k, depth)
+            if isinstance(t, ast.BoolOp) and isinstance(t.op, ast.And) and any(_has_int_call(v) for v in t.values):
+                # `if a and b: X else: Y` is `if a: (if b: X else: Y) else: Y` -- so that int() in `b` runs only after `a`
+                inner = ast.If(test=t.values[-1], body=s.body, orelse=s.orelse)
+                for v in reversed(t.values[:-1]):
+                    inner = ast.If(test=v, body=[inner], orelse=s.orelse)
+                return st.block([inner] + rest, k, depth)
+            new = ast.If(test=t, body=s.body, orelse=s.orelse)
+            new._c17_done = True
+            names = int_calls(t)
+            return with_ints(names, depth, st, lambda d: st.block([new] + rest, k, d))
+        if isinstance(s, (ast.Return, ast.Assign)) and s.value is not None and not getattr(s, "_c17_done", False):
+            names = int_calls(s.value)
+            if names:
+                s._c17_done = True
+                try:
+                    return with_ints(names, depth, st, lambda d: st.block([s] + rest, k, d))
+                finally:
+                    s._c17_done = False
+        return None
 
     def ret(v, ex):
         if v is None or ast.unparse(v) == "None":
-            return ".col none"
+            return ".ok (.col none)"
         # self.columns[i]: Python list indexing (negative indexes, IndexError)
         if isinstance(v, ast.Subscript) and ast.unparse(v.value) == "self.columns" and not isinstance(v.slice, ast.Slice):
-            if not (isinstance(v.slice, ast.Name) and state["key_kind"].get(v.slice.id) == "int"):
-                raise Untranslatable("index %s is not known to be an int" % ast.unparse(v.slice))
-            return "Out.ofIndex (pyIndex %s %s)" % (ex.go(v.value), ex.go(v.slice))
-        return ".col (%s)" % _opt_ret(v, ex)
+            sl = v.slice
+            known = (isinstance(sl, ast.Name) and state["key_kind"].get(sl.id) == "int") or (
+                isinstance(sl, ast.Call) and isinstance(sl.func, ast.Name) and sl.func.id == "int" and len(sl.args) == 1
+                and isinstance(sl.args[0], ast.Name) and (sl.args[0].id in state["int_of"] or state["key_kind"].get(sl.args[0].id) == "int"))
+            if not known:
+                raise Untranslatable("index %s is not known to be an int" % ast.unparse(sl))
+            return ".ok (Out.ofIndex (pyIndex %s %s))" % (ex.go(v.value), ex.go(sl))
+        return ".ok (.col (%s))" % _opt_ret(v, ex)
 
     real_go = ex.go
 
@@ -234,8 +407,12 @@ def t_column(sch):
             raise Untranslatable("%s used before its type is tested" % arg)
         return real_go(n)
     ex.go = go
-    return pystmt.function(fn, "column", [(None, "(self_ : Schema ι ν)"), (arg, "(%s : Key ν)" % arg)], "Out ι ν", ex, ret=ret,
-                           k=".col none", stmt_hook=stmt_hook, fold_redex=True)
+    return pystmt.function(fn, "column", [(None, "(S : StrOps ν)"), (None, "(self_ : Schema ι ν)"), (arg, "(%s : Key ν)" % arg)],
+                           "Except String (Out ι ν)", ex, ret=ret, k=".ok (.col none)", stmt_hook=stmt_hook, fold_redex=True)
+
+
+def _has_int_call(e):
+    return any(isinstance(n, ast.Call) and isinstance(n.func, ast.Name) and n.func.id == "int" for n in ast.walk(e))
 
 
 def t_all_column_names(sch):
@@ -273,9 +450,9 @@ TRANSLATORS = (("all_names", t_all_names), ("column_names", t_column_names), ("a
 THEOREMS = {
     "generated_all_names_eq_model": (["all_names"], "checkAllNames (fun c => Gen.SchemaFns.all_names c)"),
     "generated_find_column_eq_model": (["find_column", "all_names"],
-                                       "checkFind (fun lower s k ci => Gen.SchemaFns.find_column lower s k ci)"),
-    "generated_column_eq_model": (["column", "find_column", "all_names"], "checkColumn (fun s k => Gen.SchemaFns.column s k)"),
-    "generated_pop_column_eq_model": (["pop_column", "find_column", "all_names"], "checkPop (fun s k => Gen.SchemaFns.pop_column s k)"),
+                                       "checkFind (fun S lower s k ci => Gen.SchemaFns.find_column S lower s k ci)"),
+    "generated_column_eq_model": (["column", "find_column", "all_names"], "checkColumn (fun S s k => Gen.SchemaFns.column S s k)"),
+    "generated_pop_column_eq_model": (["pop_column", "find_column", "all_names"], "checkPop (fun S s k => Gen.SchemaFns.pop_column S s k)"),
     "generated_add_eq_model": (["add"], "checkAdd (fun a b => Gen.SchemaFns.add a b)"),
     "generated_names_eq_model": (["column_names", "iter_names", "all_column_names", "num_columns", "all_names"],
                                  "checkNames (fun s => Gen.SchemaFns.column_names s) (fun s => Gen.SchemaFns.iter_names s) "
@@ -334,7 +511,7 @@ def trial(parts):
             "variable {ι ν : Type} [DecidableEq ι] [DecidableEq ν]\n")
     text = head + body + section + "\nend C17\n"
     deps = ""
-    for rel in ("Lemmas/SchemaFns.lean", "Lemmas/SchemaBattery.lean", "Lemmas/SchemaOps.lean", "Model/SchemaOps.lean"):
+    for rel in ("Lemmas/SchemaFns.lean", "Lemmas/SchemaBattery.lean", "Lemmas/SchemaOps.lean", "Model/SchemaOps.lean", "Generated/SchemaOps.lean"):
         try:
             deps += open(os.path.join(core.LEAN, "OrsoVerif", rel), encoding="utf-8").read()
         except OSError:
@@ -379,6 +556,25 @@ def trial(parts):
     return verdict
 
 
+def _flush_schema_ops(o):
+    """The trial elaborates against Generated/SchemaOps.lean (`aliasesFirst` …, written by extractors/c17.py, which runs
+    first): put this run's text on disk before the trial, as extract.run() would at the end, so that the trial sees what
+    the real build will see (otherwise a harmless `[self.name] + self.aliases` is reported as a difference)."""
+    from ..extract import GEN_DIR
+    text = o.files.get("SchemaOps.lean")
+    if text is None:
+        return
+    path = os.path.join(GEN_DIR, "SchemaOps.lean")
+    try:
+        old = open(path).read()
+    except OSError:
+        old = None
+    if old != text:
+        with core.BuildLock():
+            with open(path, "w") as f:
+                f.write(text)
+
+
 def generate(o):
     sch = Src("orso/schema.py")
     pinned = _pinned()
@@ -401,6 +597,7 @@ def generate(o):
         changed = [k for k in keys if eff[k] != pinned.get(k)]
         if not changed:
             break
+        _flush_schema_ops(o)
         try:
             verdict = trial([(k, eff[k]) for k in keys])
         except Exception as e:  # the trial is an optimisation of the verdict's wording, never a reason to stop
